@@ -288,6 +288,10 @@ def run(ck, facts, tier):
         ck.check(s6, "PPSpline::eq", {"k", "n", "t", "c"} <= flds, "PPSpline equality ignores field(s) %s" % sorted({"k", "n", "t", "c"} - flds),
                  "%s:%d" % (sp[0]["file"], sp[0]["line"]), sample="compares " + ",".join(sorted(flds)))
 
+    # S16.9: loaders accept every well-shaped object (the converse of C20's R20.6, decided by the same path analysis)
+    from rules import c20
+    with ck.restrict({"S16.9"}):
+        c20.shape_rule(ck, facts, accept="S16.9")
     ck.not_decided += ["equality of concrete objects after a round trip (numerical content)", "correctness of serde, serde_json, bincode, ndarray's and indexmap's own serde impls",
                        "FX markets are compared at their default first order (statement); behavioural PartialEq of calendars is C06's R06.4"]
     ck.trusted += ["cargo metadata (resolved feature set)", "serde derive expanding field attributes as documented"]
